@@ -469,6 +469,45 @@ func extractToxics(repo string, o *out) {
 			plain = boolS(arms == 0)
 		}
 		o.emit("toxic_sends_are_plain", "", "bool", plain, "true", "", "")
+		// ... and the only hand-offs that may be given up (WriteOutput with a time limit) sit on interrupt paths: inside a select
+		// arm that received from stub.Interrupt. On a connection that is not being reconfigured nothing is ever given up on.
+		giveup := ""
+		nw, outside := 0, 0
+		for _, f := range p.files {
+			for _, d := range f.Decls {
+				fd, ok := d.(*ast.FuncDecl)
+				if !ok || fd.Body == nil || fd.Name.Name != "Pipe" || fd.Recv == nil {
+					continue
+				}
+				var arms []*ast.CommClause
+				ast.Inspect(fd.Body, func(x ast.Node) bool {
+					if cc, ok := x.(*ast.CommClause); ok && cc.Comm != nil && strings.Contains(show(fs, cc.Comm), ".Interrupt") {
+						arms = append(arms, cc)
+					}
+					return true
+				})
+				ast.Inspect(fd.Body, func(x ast.Node) bool {
+					if c, ok := x.(*ast.CallExpr); ok && strings.HasSuffix(show(fs, c.Fun), ".WriteOutput") {
+						nw++
+						in := false
+						for _, a := range arms {
+							if a.Pos() <= c.Pos() && c.End() <= a.End() {
+								in = true
+							}
+						}
+						if !in {
+							outside++
+						}
+					}
+					return true
+				})
+			}
+		}
+		if pipes >= 7 {
+			giveup = boolS(outside == 0)
+		}
+		_ = nw
+		o.emit("give_up_only_when_interrupted", "", "bool", giveup, "true", "", "")
 
 		sc := ""
 		if fd := p.method("SlowCloseToxic", "Pipe"); fd != nil && fd.Body != nil {
